@@ -148,9 +148,12 @@ impl Project for FileBackedProject {
     }
 
     fn semantic(&mut self) -> Result<(), Vec<Diagnostic>> {
-        let library_results: Vec<_> = self
-            .sources
-            .iter_mut()
+        // The map iterates in a different order on each run. Analyze the files in the
+        // order of their identifiers so that the diagnostics do not depend on the run.
+        let mut sources: Vec<_> = self.sources.iter_mut().collect();
+        sources.sort_by_key(|source| source.0.to_string());
+        let library_results: Vec<_> = sources
+            .into_iter()
             .map(|source| source.1.library())
             .collect();
 
